@@ -587,8 +587,9 @@ Ftp::Client::handleEpsvReply(Ip::Address &remoteAddr)
     buf = ctrl.last_reply + strcspn(ctrl.last_reply, "(");
 
     char h1, h2, h3, h4;
-    unsigned short port;
-    int n = sscanf(buf, "(%c%c%c%hu%c)", &h1, &h2, &h3, &port, &h4);
+    unsigned int port;
+    // the field width keeps an out-of-range port from wrapping during the conversion
+    int n = sscanf(buf, "(%c%c%c%5u%c)", &h1, &h2, &h3, &port, &h4);
 
     if (n < 4 || h1 != h2 || h1 != h3 || h1 != h4) {
         debugs(9, DBG_IMPORTANT, "ERROR: Invalid EPSV reply from " <<
@@ -598,7 +599,7 @@ Ftp::Client::handleEpsvReply(Ip::Address &remoteAddr)
         return sendPassive();
     }
 
-    if (0 == port) {
+    if (0 == port || port > 65535) {
         debugs(9, DBG_IMPORTANT, "Unsafe EPSV reply from " <<
                ctrl.conn->remote << ": " <<
                ctrl.last_reply);
